@@ -70,7 +70,7 @@ def run(tier, seed):
             c32 += c32b; s32 += s32b
         # random conformant encodings of larger images: expectation computed by TLC
         rnd = []
-        nrand = 150 if tier == "quick" else 2500
+        nrand = 150 if tier == "quick" else 10000
         for k in range(nrand):
             w = rng.choice([1, 2, 3, 7, 8, 9, 15, 16, 17, 31, 33, 40, 64])
             h = rng.choice([1, 2, 3, 4, 5, 8, 16]) if w <= 33 else rng.choice([1, 2, 3])
@@ -84,8 +84,11 @@ def run(tier, seed):
             for p in range(blk * 4096, (blk + 1) * 4096):
                 data += [p & 255, p >> 8]
             rnd.append({"w": 64, "h": 64, "bpp": 16, "comp": False, "data": data})
+        # uncompressed rows hold a multiple of four bytes (MS-RDPBCGR 2.2.9.1.1.3.1.2.2): at 16 bpp the conformant class has
+        # even widths only (servers pad the width field); odd widths belong to C08 (totality)
         for (w, h) in [(1, 1), (2, 3), (5, 4), (16, 2), (0, 0), (3, 0), (0, 2)]:
-            rnd.append({"w": w, "h": h, "bpp": 16, "comp": False, "data": [rng.randrange(256) for _ in range(2 * w * h)]})
+            w16 = w + (w % 2)
+            rnd.append({"w": w16, "h": h, "bpp": 16, "comp": False, "data": [rng.randrange(256) for _ in range(2 * w16 * h)]})
             rnd.append({"w": w, "h": h, "bpp": 32, "comp": False, "data": [rng.randrange(256) for _ in range(4 * w * h)]})
         exp = codec.expect(wd, rnd, "rnd")
         kept = []
@@ -113,6 +116,7 @@ def run(tier, seed):
                "exhaustive_tiny": {"rle16": s16, "planar": s32}, "binding_selftest_rejected": tested, "random_dropped_as_nonconformant": dropped, "exhaustive": True}
         return v.finish("model_checking", cov, [
             "conformant RLE encoders do not let an order straddle the end of the first scanline (the two published decoder semantics coincide on this class)",
+            "uncompressed bitmaps: rows hold a multiple of four bytes, so at 16 bpp only even widths are in the conformant class",
             "planar streams use format header 0x10 (RLE, alpha plane, no subsampling); other headers belong to C08",
             "exact rounding of 5-6-5 to 8-8-8 is round(255*v/max); TLC checked that it equals the implementation's constants for all 32+64 channel values"])
     finally:
